@@ -21,6 +21,7 @@ if os.path.exists(tf):
         if '\t' in l:
             k,v=l.rstrip('\n').split('\t',1); triaged[k]=v
 NW=12
+OPS=[o for o in os.environ.get('RS_OPS','').split(',') if o]   # restrict to these operators
 root='/tmp/rs'
 shutil.rmtree(root,ignore_errors=True); os.makedirs(root)
 subprocess.run(['git','-C','/repo','worktree','prune'])
@@ -65,6 +66,7 @@ def one(diff):
         idx=[l.rstrip('\n').split('\t') for l in open(gm+'/index.txt')] if os.path.exists(gm+'/index.txt') else []
         n=0
         for mname,file,desc in idx:
+            if OPS and desc.split(':')[0] not in OPS: continue
             m=re.search(r':(\d+) ',desc)
             if not m or int(m.group(1)) not in add.get(file,()): continue
             n+=1
